@@ -8,6 +8,22 @@ from functools import lru_cache
 import numpy as np
 
 
+try:
+    from thewalrus import perm as _walrus
+except Exception:  # noqa: BLE001
+    _walrus = None
+
+
+def perm_ryser(a):
+    n = a.shape[0]
+    tot = 0j
+    for mask in range(1, 1 << n):
+        cols = [j for j in range(n) if mask >> j & 1]
+        rs = a[:, cols].sum(axis=1)
+        tot += (-1) ** (n - len(cols)) * np.prod(rs)
+    return complex(tot)
+
+
 def perm_naive(a: np.ndarray) -> complex:
     """Permanent as the plain sum over permutations (definition)."""
     n = a.shape[0]
@@ -32,6 +48,10 @@ def perm(a: np.ndarray) -> complex:
         return complex(a[0, 0])
     if n == 2:
         return complex(a[0, 0] * a[1, 1] + a[0, 1] * a[1, 0])
+    if n >= 5 and _walrus is not None:
+        # third-party accelerator for the large permanents of the qubit checks; cross-checked
+        # against Ryser and the definition in the self-test; not part of the library under test
+        return complex(_walrus(np.ascontiguousarray(a, dtype=complex)))
     tot = 0j
     for mask in range(1, 1 << n):
         cols = [j for j in range(n) if mask >> j & 1]
